@@ -232,10 +232,41 @@ def other_foreign(st, zone_list, locals_):
             st.fail('writer-raised-other-than-ValueError-for-foreign-tzinfo', {'exc': type(e).__name__, 'tzinfo': 'naive'}, {'kind': 'naive'}, {})
 
 
+def micro_task(zones, values):
+    """Sub-second digits: every listed microsecond value (the hazard alphabet of ref/hazards.py) in a few zones, both formats."""
+    import hszinc as hs
+    st = Stats()
+    for name, olson in zones:
+        tz = pytz.timezone(olson)
+        for us in values:
+            utc = datetime.datetime(2021, 3, 3, 4, 5, 6, us, tzinfo=UTC)
+            dt = utc.astimezone(tz)
+            for fmt in ('zinc', 'json'):
+                st.count('executions')
+                case = {'kind': 'zone', 'zone': name, 'olson': olson, 'utc': utc.isoformat(), 'fmt': fmt}
+                try:
+                    text, back = roundtrip(hs, dt, fmt)
+                except Exception as e:  # noqa
+                    st.fail('mapped-zone-datetime-roundtrip-raised', {'fmt': fmt, 'exc': type(e).__name__, 'zone': name}, case, {'exc': repr(e)[:300]})
+                    continue
+                ok = isinstance(back, datetime.datetime) and back.tzinfo is not None and (back - EPOCH) // US == (utc - EPOCH) // US \
+                    and back.utcoffset() == dt.utcoffset()
+                st.case((name, utc.isoformat(), fmt), outcome=('micro', ok))
+                if not ok:
+                    st.fail('datetime-changed-through-roundtrip', {'fmt': fmt, 'what': 'instant', 'digits': 'sub-second'}, case,
+                            {'text': text, 'expected': dt.isoformat(), 'observed': repr(back), 'microsecond': us})
+    return st
+
+
 def run(ctx):
     st = Stats()
     zone_list = map_checks(st)
     zl = list(zone_list)
+    from ref import hazards
+    us_values = hazards.microsecond_alphabet(300) if ctx.quick else hazards.microsecond_hazards()
+    mz = [(n, o) for n, o in zone_list if n in ('UTC', 'New_York', 'Kathmandu')]
+    for part in pmap(micro_task, [(mz, c) for c in chunks(us_values, ctx.jobs * 2)], ctx.jobs):
+        st.merge(part)
     seeded_rng(ctx.seed, 'c17').shuffle(zl)
     for part in pmap(zone_task, [(c, ctx.quick) for c in chunks(zl, ctx.jobs * 4)], ctx.jobs):
         st.merge(part)
@@ -258,9 +289,9 @@ def run(ctx):
         'rule': 'complete product: every mapped zone (%d on this host) x %s transition instants (%d in total, + 2 ordinary instants per zone) x 5 '
                 'offsets around the transition x microseconds x {ZINC, JSON}; the zone map in both directions; fixed offsets %s minute(s) apart in '
                 '-14h..+14h x %d local times that are ambiguous/skipped/ordinary in some mapped zone; unmapped pytz zones, pytz.FixedOffset, '
-                'zoneinfo.ZoneInfo; distinct = distinct (zone or tzinfo, instant, format)' % (
-                    len(zone_list), 'first 2 + last 6' if ctx.quick else 'all tabulated (1850-2100)', ntrans, 15 if ctx.quick else 1, len(locs)),
-        'coverage': {'bounds': {'zones': len(zone_list), 'transition_instants': ntrans, 'fixed_offsets': len(offsets), 'edge_local_times': len(locs)}},
+                'zoneinfo.ZoneInfo; plus %d microsecond values (those on which float arithmetic on the fraction is inexact: ref/hazards.py) in 3 zones x both formats; distinct = distinct (zone or tzinfo, instant, format)' % (
+                    len(zone_list), 'first 2 + last 6' if ctx.quick else 'all tabulated (1850-2100)', ntrans, 15 if ctx.quick else 1, len(locs), len(us_values)),
+        'coverage': {'bounds': {'zones': len(zone_list), 'transition_instants': ntrans, 'fixed_offsets': len(offsets), 'edge_local_times': len(locs), 'hazard_microsecond_values': len(us_values)}},
         'assumptions': ['pytz transition tables and datetime arithmetic are the oracle for instants and offsets',
                         'a Haystack zone name is the last path segment of its Olson name'],
     }
